@@ -34,7 +34,7 @@ type SiteAct struct {
 
 // Step is one driver step.
 type Step struct {
-	Kind     string         `json:"kind"` // "block" | "restart" | "checks"
+	Kind     string         `json:"kind"` // "block" | "restart" | "checks" | "join" | "bounce" | "op"
 	Txs      []string       `json:"txs,omitempty"`
 	Labels   []string       `json:"labels,omitempty"` // generator intent label per tx (parallel to Txs)
 	DtMs     int64          `json:"dt_ms,omitempty"`
@@ -307,6 +307,30 @@ func (e *Engine) DoRestart(st *Step) error {
 		return nil // crashed again during catch-up; a later restart step may revive it
 	}
 	return err
+}
+
+// DoBounce kills a live replica between two blocks - everything of the last block is committed, Tendermint's state
+// is saved and the index fed, no call is in flight - and restarts it at once from the byte copy of its open data
+// directory through the real NewApp / Prepare half / Handshaker. It is the crash point "after SaveState" followed
+// by an immediate restart, and the only fault that may hit the replica the oracles observe (index 0): the restarted
+// node has lost every in-memory object (caches, queues, option copies, per-process counters) and nothing else, and
+// no block is missed, so observation stays gap-free.
+func (e *Engine) DoBounce(st *Step) error {
+	if !e.Replay {
+		e.Trace.Steps = append(e.Trace.Steps, st)
+	}
+	if st.Replica < 0 || st.Replica >= len(e.C.Replicas) {
+		return nil
+	}
+	r := e.C.Replicas[st.Replica]
+	if !r.Up || e.C.Height() == 0 {
+		return nil
+	}
+	e.begin(st, e.C.Height())
+	defer func() { e.cur = nil }()
+	e.Stats.Faults["bounce_restart"]++
+	r.crashNow()
+	return e.C.StartReplica(r)
 }
 
 // DoJoin adds a replica mid-run: it boots from genesis and is fed the whole canonical chain.
